@@ -45,7 +45,17 @@ pub fn small(level: u8) -> Vec<Piece> {
         piece("body_tricky40", Class::Body, &tricky_body(40)),
         piece("stray_cr", Class::Stray, b"\r"),
     ];
-    if level >= 1 {
+    if level == 1 {
+        // medium alphabet: the quick one plus one representative of each further kind
+        let full = small(2);
+        for name in ["rl_patch_utf8", "rl_bad_method_lc", "h_cl_bad", "h_expect", "h_xbb", "h_nonutf8", "stray_lf", "h_cl0"] {
+            if let Some(x) = full.iter().find(|x| x.name == name) {
+                p.push(x.clone());
+            }
+        }
+        return p;
+    }
+    if level >= 2 {
         p.extend(vec![
             piece("h_xbb", Class::Header, b"X-bb: 2\r\n"),
             piece("h_expect", Class::Header, b"Expect: 100-continue\r\n"),
@@ -93,7 +103,16 @@ pub fn grammar(level: u8) -> Vec<Piece> {
         piece("body_abc", Class::Body, b"abc"),
         piece("stray_cr", Class::Stray, b"\r"),
     ];
-    if level >= 1 {
+    if level == 1 {
+        let full = grammar(2);
+        for name in ["rl_patch_utf8", "h_cl41", "h_ae_empty", "stray_lf", "h_expect_unsupported", "rl_len_b+1"] {
+            if let Some(x) = full.iter().find(|x| x.name == name) {
+                p.push(x.clone());
+            }
+        }
+        return p;
+    }
+    if level >= 2 {
         p.extend(vec![
             piece("rl_patch_utf8", Class::ReqLine, "PATCH /\u{e9} HTTP/1.1\r\n".as_bytes()),
             piece("h_expect_unsupported", Class::Header, b"Expect: 103-checkpoint\r\n"),
